@@ -48,6 +48,10 @@ SAMPLE_EVERY = {"quick": 30000, "thorough": 60000}
 
 KINDS = ["ascope", "sscope", "updated", "dscope"]
 TYPES = ("A", "A2", "R", "G", "U", "F", "M", "IT", "N")
+from hv.ctxkit import WIDE  # noqa: E402
+
+# supplies 100.. : WIDE contexts (9 / 12 distinct types in one block; one / three of them again)
+WIDE_SUPPLY = [[*WIDE[:9], "A"], list(WIDE), ["W3"], ["W0", "W8", "A"], ["W11", "R"], [*WIDE[:8]], ["W8"]]
 
 
 def _forests(n_max: int, kinds: list[str], supplies: list[int]):
@@ -143,6 +147,15 @@ def programs(tier: str):
                     node = {"l": [kind_, s_], "c": [node] if node else []}
                 k += 1
                 yield {"forest": [node], "order": "nd-first" if k % 2 else "d-first"}
+    # WIDE contexts: a block carrying 8 / 9 / 12 distinct state types, blocks nested in it (and a
+    # later sibling) supplying some of them again - lookups at every position, all block kinds
+    for outer_s in (100, 101, 105):
+        for ok in ("ascope", "sscope", "updated", "dscope"):
+            for inner_s in (102, 103, 104, 106, 1):
+                for ik in ("ascope", "updated", "dscope"):
+                    k += 1
+                    yield {"forest": [{"l": [ok, outer_s], "c": [{"l": [ik, inner_s], "c": []}]}], "order": "nd-first" if k % 2 else "d-first", "wide": True}
+                    yield {"forest": [{"l": [ok, outer_s], "c": [{"l": [ik, inner_s], "c": [{"l": ["updated", 106], "c": []}]}, {"l": [ik, 102], "c": []}]}], "order": "d-first", "wide": True}
     if tier == "thorough":
         n4 = 0
         for shape in forest_shapes(4):
@@ -172,8 +185,9 @@ def execute(program, ch: Chooser) -> Result:  # noqa: C901, PLR0915
     stats = {"shadow": False, "dup": False, "sub": False, "prep": False, "abnormal": False, "equal": False}
 
     def probe(pos: str, env: list[dict], in_scope: bool, soft_root: bool) -> None:
-        got = probe_state(supplied, order, types=TYPES)
-        exp = expected_state(env, in_scope, types=TYPES)
+        types_ = TYPES if not program.get("wide") else (*TYPES[:4], *WIDE)
+        got = probe_state(supplied, order, types=types_)
+        exp = expected_state(env, in_scope, types=types_)
         for k in exp:
             if got[k] != exp[k]:
                 if soft_root and got[k] == ("MissingContext",):
@@ -217,7 +231,7 @@ def execute(program, ch: Chooser) -> Result:  # noqa: C901, PLR0915
     def prepare(blocks, enclosing_a: str | None = None):
         for b in blocks:
             label = f"b{next(counter)}"
-            raw_names = SUPPLY[b["l"][1]]
+            raw_names = SUPPLY[b["l"][1]] if b["l"][1] < 100 else WIDE_SUPPLY[b["l"][1] - 100]
             states = make_states(raw_names, label)
             names = []
             idents = []
